@@ -15,6 +15,7 @@ import (
 )
 
 type Clause struct {
+	Props []string // when set: the clause belongs to these properties only
 	Expr ast.Expr
 	Src  string
 	Mode string // "", "sound", "complete"
